@@ -577,7 +577,18 @@ func (ev *EvalCtx) evalQuant(e EQuant) TV {
 	var decl []string
 	var ranges []*Term
 	for _, v := range e.Vars {
-		t := ev.resolveType(v.Type)
+		var t types.Type
+		if strings.HasPrefix(v.Type, "mapkey(") && strings.HasSuffix(v.Type, ")") {
+			// key type of a (generically typed) map parameter
+			mv := ev.evalIdent(v.Type[len("mapkey(") : len(v.Type)-1])
+			mt, ok := mv.T.Underlying().(*types.Map)
+			if !ok {
+				ev.fail("mapkey() of non-map")
+			}
+			t = mt.Key()
+		} else {
+			t = ev.resolveType(v.Type)
+		}
 		s, ok := leafSort(t)
 		if !ok {
 			ev.fail("quantified variable %s must have a scalar type", v.Name)
@@ -688,6 +699,19 @@ func (ev *EvalCtx) evalCall(e ECall) TV {
 		k := ev.eval(e.Args[0])
 		arr := ev.seenArray(k.V.T.Sort, "")
 		return TV{V: scalar(Select(arr, k.V.T))}
+	case "gcount":
+		// gcount(name, key): value of ghost counter map `name` at key
+		argn(2)
+		id, ok := e.Args[0].(EIdent)
+		if !ok {
+			ev.fail("gcount(name, key)")
+		}
+		k := ev.eval(e.Args[1])
+		if k.V.T == nil {
+			ev.fail("gcount key must be scalar")
+		}
+		arr := fc.ghost(ev.cur, "gmap:"+id.Name, ArrSort(k.V.T.Sort, SInt))
+		return TV{V: scalar(Select(arr, k.V.T))}
 	case "seencount":
 		// seencount(): number of keys the (unique) active map range has visited so far
 		argn(0)
@@ -769,7 +793,7 @@ func (ev *EvalCtx) evalCall(e ECall) TV {
 		if x.Addr == nil {
 			ev.fail("held() needs an addressable lock")
 		}
-		return TV{V: scalar(Select(fc.heldSet(ev.cur), x.Addr))}
+		return TV{V: scalar(Or(Select(fc.heldSet(ev.cur), x.Addr), Select(fc.rheldSet(ev.cur), x.Addr)))}
 	case "ghost":
 		argn(1)
 		id, ok := e.Args[0].(EIdent)
@@ -1047,6 +1071,18 @@ func (ev *EvalCtx) evalLoc(e Expr) []locItem {
 		case "ghost":
 			id := e.Args[0].(EIdent)
 			return []locItem{{kind: "ghost", ghost: id.Name}}
+		case "anymapof":
+			// anymapof(m): every inner map of the map-of-maps m (all maps of m's element type)
+			x := ev.eval(e.Args[0])
+			mt, ok := x.T.Underlying().(*types.Map)
+			if !ok {
+				ev.fail("anymapof() needs a map of maps")
+			}
+			it, ok := mt.Elem().Underlying().(*types.Map)
+			if !ok {
+				ev.fail("anymapof() needs a map of maps")
+			}
+			return []locItem{{kind: "maptype", mapT: it}}
 		}
 	case EIndex:
 		x := ev.eval(e.X)
@@ -1077,7 +1113,14 @@ func covers(a, b locItem) *Term {
 		}
 	case "map":
 		if b.kind == "map" {
+			if a.mapT != nil && b.mapT != nil && mapTypeName(a.mapT) != mapTypeName(b.mapT) {
+				return TFalse
+			}
 			return Eq(a.obj, b.obj)
+		}
+	case "maptype":
+		if (b.kind == "map" || b.kind == "maptype") && b.mapT != nil && mapTypeName(a.mapT) == mapTypeName(b.mapT) {
+			return TTrue
 		}
 	case "ghost":
 		if b.kind == "ghost" && a.ghost == b.ghost {
@@ -1120,6 +1163,20 @@ func (fc *FnCtx) havocItems(st *State, items []locItem) {
 			}
 		case "map":
 			fc.havocMap(st, it.obj, it.mapT)
+		case "maptype":
+			p, pn := fc.mapP(st, it.mapT)
+			st.heaps[pn] = fc.sc.Fresh("hvMP", p.Sort)
+			lay := fc.eng.ti.LayoutOf(it.mapT.Elem())
+			for i, v := range fc.mapVs(st, it.mapT) {
+				nh := fc.sc.Fresh("hvMV", v.h.Sort)
+				fc.wfHeapFact(nh, fc.hvBound)
+				if isRefInt(lay.Leaves[i].Type) {
+					fc.wfRefIntFact(nh, fc.hvBound, true)
+				}
+				st.heaps[v.name] = nh
+			}
+			c, cn := fc.mapCT(st, it.mapT)
+			st.heaps[cn] = fc.sc.Fresh("hvMC", c.Sort)
 		case "ghost":
 			st.ghosts[it.ghost] = fc.sc.Fresh("g_"+it.ghost, SInt)
 		case "any":
